@@ -141,7 +141,7 @@ where
     let mut files = HashSet::new();
     let mut ranges = vec![];
     for line in io::BufReader::new(from).lines() {
-        let line = line.unwrap();
+        let line = line?;
 
         if let Some(captures) = diff_pattern.captures(&line) {
             current_file = Some(captures.get(1).unwrap().as_str().to_owned());
